@@ -368,7 +368,35 @@ func presenceRule(c *Ctx, fnName string, rows []presRow) int {
 					continue
 				}
 				name := strings.TrimPrefix(path, ".")
-				_, isC := x.Val.(*ssa.Const)
+				// a value merged by a phi (v := 0; if flag { v = buf[i] }; p.F = v) is what this path assigned
+				val := x.Val
+				for depth := 0; depth < 4; depth++ {
+					ph, ok := val.(*ssa.Phi)
+					if !ok {
+						break
+					}
+					at := -1
+					for ti := len(trail) - 1; ti >= 1; ti-- {
+						if trail[ti] == ph.Block() {
+							at = ti
+							break
+						}
+					}
+					if at < 1 {
+						break
+					}
+					resolved := false
+					for ei, pr := range ph.Block().Preds {
+						if pr == trail[at-1] {
+							val = ph.Edges[ei]
+							resolved = true
+						}
+					}
+					if !resolved {
+						break
+					}
+				}
+				_, isC := val.(*ssa.Const)
 				if path == "" {
 					// whole receiver overwritten
 					lf := litFields(x)
